@@ -86,8 +86,11 @@ def violation_class(v) -> str:
 class EventLog:
     """Append-only log of what happened in a run; hashed for determinism tests."""
 
+    BEHAVIOUR = ("out", "trained", "sd", "lib", "built", "quantized")
+
     def __init__(self, keep=False):
         self._h = hashlib.sha256()
+        self._b = hashlib.sha256()
         self.n = 0
         self.keep = keep
         self.records = []
@@ -96,12 +99,18 @@ class EventLog:
         s = json.dumps(rec, sort_keys=True, default=repr)
         self._h.update(s.encode())
         self._h.update(b"\n")
+        if rec and rec[0] in self.BEHAVIOUR:
+            # what the system under test did, as opposed to what the harness observed about it
+            self._b.update(s.encode())
         self.n += 1
         if self.keep:
             self.records.append(rec)
 
     def digest(self) -> str:
         return self._h.hexdigest()[:20]
+
+    def behaviour_digest(self) -> str:
+        return self._b.hexdigest()[:20]
 
 
 class RunResult(dict):
